@@ -24,11 +24,26 @@ def flip_for(m):
     return [(d % 2 == 0) for d in range(nd)]
 
 
+def int_corners(m, emb, coords):
+    """deterministic harness-level choice: on dyadic embeddings whose corners are whole numbers, every second mesh
+    configuration is built from Python ints (seeded changes C07-2 / C02-3 only showed with integer-typed input)"""
+    import os
+
+    if os.environ.get("VERIF_INT_CORNERS", "1") != "1" or not emb.dyadic:
+        return False
+    if not all(float(v).is_integer() and abs(v) < 2**40 for v in coords):
+        return False
+    return (sum(int(x) for x in m["n"]) + sum(int(x) // 4 for x in m["lo"])) % 2 == 1
+
+
 def region_of(df, m, emb, dims=None, units=None, flip=None, **kw):
     nd = len(m["n"])
     lo = [emb.x(m["lo"][d]) for d in range(nd)]
     hi = [emb.x(m["lo"][d] + m["c"][d] * m["n"][d]) for d in range(nd)]
     flip = flip if flip is not None else [False] * nd
+    if int_corners(m, emb, lo + hi):
+        # integer-typed corners (Region keeps an int64 pmin/pmax): the numeric type of the corners must not matter
+        lo, hi = [int(v) for v in lo], [int(v) for v in hi]
     p1 = [hi[d] if flip[d] else lo[d] for d in range(nd)]
     p2 = [lo[d] if flip[d] else hi[d] for d in range(nd)]
     return df.Region(p1=p1, p2=p2, dims=dims, units=units, **kw)
